@@ -232,7 +232,7 @@ fn expect_error(sink: &mut Sink, what: &str, o: &Out, outp: Option<&Path>) {
 
 pub fn run(sink: &mut Sink, rng: &mut Rng, thorough: bool, dir: &Path) {
   fs::create_dir_all(dir).unwrap();
-  let n = if thorough { 12 } else { 2 };
+  let n = if thorough { 24 } else { 2 };
   macro_rules! pairs {
     ($a:ident, $b:ident, $c:ident) => {
       pair::<$a, $a>(sink, rng, n, dir);
@@ -249,7 +249,7 @@ pub fn run(sink: &mut Sink, rng: &mut Rng, thorough: bool, dir: &Path) {
   pairs!(H16, H32, H64);
   pairs!(T16, T32, T64);
   pairs!(F16, F32, F64);
-  let n1 = if thorough { 12 } else { 2 };
+  let n1 = if thorough { 24 } else { 2 };
   single::<H16>(sink, rng, n1, dir);
   single::<H32>(sink, rng, n1, dir);
   single::<H64>(sink, rng, n1, dir);
